@@ -1042,8 +1042,14 @@ def generate(repo, template, mode=None, isolate=False):
             mt = X.strip_comments(toks[hit[0]:hit[1] + 1])
             txt = '\n'.join(l for l in text(mt).split('\n') if l.strip())
             line0 = toks[hit[0]].line
+            mlog = [('R10', 'local macro_rules! %s copied verbatim; expanded by rustc inside the verified function' % blk.kv['name'], line0)]
+            # unit-wide substitutions (//@@ gsubst) also apply to the text of a copied macro (R16: an `x.into()` inside the macro body is routed to a named conversion)
+            for (gp, gr, grule) in meta.get('gsubst', []):
+                if gp in txt:
+                    txt = txt.replace(gp, gr)
+                    mlog.append((grule, '`%s` => `%s` inside the macro body' % (gp, gr), line0))
             em.emit_lines([(ln, dict(kind='src', fn='macro ' + blk.kv['name'], file=blk.kv['file'], line=line0)) for ln in txt.split('\n')])
-            types.append(dict(name='macro ' + blk.kv['name'], log=[('R10', 'local macro_rules! %s copied verbatim; expanded by rustc inside the verified function' % blk.kv['name'], line0)],
+            types.append(dict(name='macro ' + blk.kv['name'], log=mlog,
                               hash=X.sha(toks[hit[0]:hit[1] + 1]), file=blk.kv['file'], line=line0, lines=[]))
             continue
         if blk.kind == 'decl':
